@@ -527,7 +527,7 @@ def run(chk, replay=None):
     for j, (rc, stderr, data) in zip(picked, cli):
         brc, bstderr, bdata = results[j["idx"]]
         chk.add("cli_crosschecked")
-        if (rc, data) != (brc, bdata):
+        if rc != brc or (rc == 0 and data != bdata):
             raise lib.ToolError("the batch driver and the real CLI disagree on\n%s\nCLI rc=%s %s\nbatch rc=%s %s" % (
                 j["src"], rc, stderr[:300], brc, bstderr[:300]))
     n_ok = n_err = n_dupok = 0
